@@ -14,7 +14,10 @@ const base = {
   diplomat_alloc(size, align) { calls.push(["diplomat_alloc", [size, align]]); bump = (bump + align - 1) & ~(align - 1); const p = bump; bump += Math.max(size, 1); return p; },
   diplomat_free(p, size, align) { calls.push(["diplomat_free", [p, size, align]]); },
 };
-export default new Proxy(base, { get(t, prop) { if (prop in t) return t[prop]; return (...args) => { calls.push([prop, args]); return 0; }; } });
+export default new Proxy(base, { get(t, prop) { if (prop in t) return t[prop]; return (...args) => { calls.push([prop, args]);
+  // a Result-returning export: the callee writes is_ok right after the payload (offset = size of the larger arm)
+  if (/_res(ok|err)\d+$/.test(String(prop)) && typeof args[0] === "number") { const m = new Uint8Array(memory.buffer); m.fill(0, args[0], args[0] + globalThis.__flagOff + 1); m[args[0] + globalThis.__flagOff] = 1; }
+  return 0; }; } });
 '''
 
 # one value per primitive: negative for the signed ones, top bit set for the unsigned ones (a wrong-signedness accessor shows)
@@ -199,6 +202,10 @@ def run_abi(rep, tier, cases, abi, wd, rng):
         methods.append("        pub fn take%d%s(&self, s: W%d%s) {}\n" % (n, lt, n, lt))
         if not lt:
             methods.append("        pub fn give%d(&self) -> W%d { todo!() }\n" % (n, n))
+            if not any(f["k"] == "opq" for f in c["fields"]):
+                # the struct as the error (unit success) and as the success (unit error) of a Result: the receive buffer is the
+                # larger arm plus the flag byte, whichever arm is the unit one
+                methods.append("        pub fn reserr%d(&self) -> Result<(), W%d> { todo!() }\n        pub fn resok%d(&self) -> Result<W%d, ()> { todo!() }\n" % (n, n, n, n))
     src = ("#[diplomat::bridge]\nmod ffi {\n    use diplomat_runtime::{DiplomatOption, DiplomatSlice, DiplomatChar};\n" + "".join(items) +
            "    impl Host {\n" + "".join(methods) + "    }\n}\n")
     p = os.path.join(wd, "structs_%s.rs" % abi)
@@ -246,6 +253,10 @@ def run_abi(rep, tier, cases, abi, wd, rng):
             for fn in ["give"] + (["giveo"] if not any(f["k"] == "opq" for f in c["fields"]) else []):
                 lines.append("  { calls.length = 0; try { host.%s%d(); } catch (e) {} const al = calls.find(x => x[0] === 'diplomat_alloc'); out.%s = al ? al[1] : null; "
                              "const cl = calls.find(x => x[0] === 'Host_%s%d'); out.%s_nargs = cl ? cl[1].length : -1; }" % (fn, n, fn, fn, n, fn))
+        if not needs_lt(c["fields"]) and not any(f["k"] == "opq" for f in c["fields"]):
+            for fn in ("reserr", "resok"):
+                lines.append("  { calls.length = 0; globalThis.__flagOff = %d; let threw = null; try { host.%s%d(); } catch (e) { threw = String(e).slice(0, 120); } "
+                             "const al = calls.find(x => x[0] === 'diplomat_alloc'); out.%s = al ? al[1] : null; out.%s_threw = threw; }" % (size, fn, n, fn, fn))
         lines.append("  console.log(JSON.stringify(out));")
         lines.append("} catch (e) { console.log(JSON.stringify({n: %d, error: String(e && e.stack || e).slice(0, 400)})); }" % n)
     sp = os.path.join(out, "driver.mjs")
@@ -296,6 +307,12 @@ def run_abi(rep, tier, cases, abi, wd, rng):
                 rep.violation(dict(key, what="receive buffer size/alignment differ" if not single else "a single-scalar struct is returned through a receive buffer",
                                    flavour="out-struct" if fn == "giveo" else "struct"),
                               {"expected": want, "observed": d[fn], "arguments_passed": d.get(fn + "_nargs"), "expected_arguments": 1 if single else 2})
+        # 3b. the struct as an arm of a Result: buffer = payload + flag byte, aligned like the payload; the flag (written by the stub
+        # right after the payload) must be found, i.e. the Ok arm is taken and nothing throws
+        for fn in ("reserr", "resok"):
+            if fn in d and (d[fn] != [ly["size"] + 1, ly["align"]] or d.get(fn + "_threw")):
+                rep.violation(dict(key, what="receive buffer of a Result with this struct as %s arm differs" % ("error" if fn == "reserr" else "success")),
+                              {"expected": [ly["size"] + 1, ly["align"]], "observed": d[fn], "threw": d.get(fn + "_threw")})
         # 4. flattened arguments
         take = json.loads(d["take"]) if d.get("take") else None
         if take is None:
